@@ -48,7 +48,7 @@ theorem pastB_role (c : Cfg) (p : Pc) (hwf : PcWF c p) (h : p.pastB = true) : p.
   cases p <;> first
     | rfl
     | (exfalso; simp [Pc.pastB] at h; done)
-    | exact pastB_cont c _ _ hwf (by simpa [Pc.pastB] using h)
+    | (simp only [Pc.role]; exact pastB_cont c _ _ hwf (by simpa [Pc.pastB] using h))
 
 theorem pastB_dispatchPc (x : Item) : (dispatchPc x).pastB = false := by cases x <;> rfl
 theorem pastB_claimPc (ctx : PopCtx) (x : Item) : (claimPc ctx x).pastB = false := by cases ctx <;> cases x <;> rfl
